@@ -167,6 +167,7 @@ var items = []string{
 	"<a/>",
 	"<stream><error xmlns='urn:example:other'/></stream>",
 	"<presence from='me@example.net/res'/>",
+	"<presence xmlns='jabber:server' from='me@example.net'/>",
 	"<message><body><!-- c --></body>t</message>",
 	"<iq type='set' id='y'><q xmlns='urn:example:q'><?pi?></q></iq>",
 	"<b><stream:error><reset xmlns='urn:ietf:params:xml:ns:xmpp-streams'/></stream:error><c/></b>",
@@ -463,11 +464,11 @@ func main() {
 			x.randomReader(r)
 		}
 	}
-	res.Rule = "inputs: corpus; exhaustive small scope (all sequences of up to 2 (thorough: 3) items from 21 kinds of top-level input " +
+	res.Rule = "inputs: corpus; exhaustive small scope (all sequences of up to 2 (thorough: 3) items from 22 kinds of top-level input " +
 		"— stanzas, other elements, elements holding comments / PIs / stream errors, keep-alives, comment, PI, directive, text, non-ASCII white space, " +
 		"stream error, stream features, restart, close, truncated element — with and without closing tag x 9 handler consumption patterns); " +
 		"seeded random scripts of 1-5 items with element trees of depth 0-3 and a drawn handler program per element (partial writes included); " +
-		"the 21 items again after a local Close() (sequences up to 2); handler results include errors that wrap io.EOF or claim to be it; served WebSocket sessions (13 items, sequences up to 2); " +
+		"the 22 items again after a local Close() (sequences up to 2); handler results include errors that wrap io.EOF or claim to be it; served WebSocket sessions (13 items, sequences up to 2); " +
 		"the stream reader alone on random documents with and without websocket framing; distinct = hash of the case; " +
 		"non-trivial = at least one handler invocation or a stream-level terminal"
 	res.CaseFiles = append(res.CaseFiles, x.cf.Write(o.Out, 400)...)
@@ -488,6 +489,9 @@ var corpus = []sv.Spec{
 	// serveTests case 14: the end-of-element boundary
 	{NS: "jabber:client", Own: sv.OwnFull, Script: "<iq type='get' id='1234'><unknownpayload xmlns='unknown'/></iq><iq type='get' id='5'/></stream:stream>", Progs: [][]sv.Op{{{K: "read", N: 8}}}, Label: "corpus/read-beyond-end"},
 	{NS: "jabber:server", Own: "example.net", Script: " <presence from='example.net'/>\n<message from='example.net/x'><body>a</body></message> </stream:stream>", Progs: [][]sv.Op{{{K: "skip", N: 9}}, nil}, Label: "corpus/server-ns"},
+	// from normalisation is for stanzas of the stream's content name space only
+	{NS: "jabber:client", Own: sv.OwnFull, Script: "<iq xmlns='jabber:server' type='result' id='1' from='me@example.net'/><message xmlns='' from='me@example.net'/><presence xmlns='urn:example:other' from='me@example.net'/><message from='me@example.net'/></stream:stream>", Label: "corpus/from-other-namespaces"},
+	{NS: "jabber:server", Own: "example.net", Script: "<message xmlns='jabber:client' from='example.net'/><message from='example.net'/></stream:stream>", Label: "corpus/from-other-namespace-s2s"},
 	// only the peer's closing tag ends Serve with nil: not a handler error that wraps io.EOF or says it is io.EOF
 	{NS: "jabber:client", Own: sv.OwnFull, Script: "<a/><b/><c/></stream:stream>", Progs: [][]sv.Op{{{K: "readret", N: 5}, {K: "ret", Ret: "wrapeof"}}}, Label: "corpus/handler-wrapped-eof"},
 	{NS: "jabber:client", Own: sv.OwnFull, Script: "<a/><b/></stream:stream>", Progs: [][]sv.Op{{{K: "ret", Ret: "iseof"}}}, Label: "corpus/handler-is-eof"},
